@@ -35,14 +35,14 @@ def dft_upsample(
     du = np.ceil(1.5 * up).astype(int)
     row = np.arange(-du, du + 1)
     col = np.arange(-du, du + 1)
-    r_shift = shift[0] - M // 2
-    c_shift = shift[1] - N // 2
+    r_pos = row + up * shift[0]
+    c_pos = col + up * shift[1]
 
     kern_row = np.exp(
-        -2j * np.pi / (M * up) * np.outer(row, xp.fft.ifftshift(xp.arange(M)) - M // 2 + r_shift)
+        -2j * np.pi / (M * up) * np.outer(r_pos, xp.fft.ifftshift(xp.arange(M)) - M // 2)
     )
     kern_col = np.exp(
-        -2j * np.pi / (N * up) * np.outer(xp.fft.ifftshift(xp.arange(N)) - N // 2 + c_shift, col)
+        -2j * np.pi / (N * up) * np.outer(xp.fft.ifftshift(xp.arange(N)) - N // 2, c_pos)
     )
     return xp.real(kern_row @ F @ kern_col)
 
@@ -128,7 +128,7 @@ def cross_correlation_shift(
     else:
         # Local DFT upsampling
 
-        local = dft_upsample(cc, upsample_factor, (x0, y0), device=device)
+        local = dft_upsample(xp.conj(cc), upsample_factor, (x0, y0), device=device)
         peak = np.unravel_index(xp.argmax(local), local.shape)
 
         try:
@@ -142,7 +142,7 @@ def cross_correlation_shift(
         except (IndexError, ValueError):
             dxf = dyf = 0.0
 
-        shifts = np.array([x0, y0]) + (np.array(peak) - upsample_factor) / upsample_factor
+        shifts = np.array([x0, y0]) + (np.array(peak) - local.shape[0] // 2) / upsample_factor
         shifts += np.array([dxf, dyf]) / upsample_factor
 
     shifts = (shifts + 0.5 * np.array(cc.shape)) % cc.shape - 0.5 * np.array(cc.shape)
